@@ -200,7 +200,25 @@ def compose_eval(p):
         m2 = z_check([z_all(res.a, env2), z_all(res.g, env2), z_some_violated(keepers, env2)], env2)
         if m2 not in (None, "unknown"):
             both = [t for t in keepers if any(t == u for u in c1.g.terms) and any(t == u for u in c2.g.terms)]
-            viol.append(("C15", "forgotten_guarantee" + ((":present_in_both_operands:simplify=%s" % p["simplify"]) if both else "") + (":tactic5" if 5 in used else ""), "an interface-level guarantee of an operand is not enforced by the composition; point %s" % (m2,)))
+            qual = (":present_in_both_operands:simplify=%s" % p["simplify"]) if both else ""
+            if not both and 5 not in used:
+                # which guarantees were forgotten, and was each already implied by the other guarantees of the two operands
+                # (so that the simplification compose runs before eliminating removed it, and what implied it was then lost)?
+                allg = list(c1.g.terms) + list(c2.g.terms)
+                lost = []
+                for t in keepers:
+                    e4 = Env()
+                    if z_check([z_all(res.a, e4), z_all(res.g, e4), z_some_violated([t], e4)], e4) not in (None, "unknown"):
+                        lost.append(t)
+                redundant = bool(lost)
+                for t in lost:
+                    e5 = Env()
+                    rest = [u for u in allg if u is not t]
+                    if z_check([z_all(rest, e5), z_some_violated([t], e5)], e5) is not None:
+                        redundant = False
+                if redundant:
+                    qual = ":implied_by_eliminated_guarantees:simplify=%s" % p["simplify"]
+            viol.append(("C15", "forgotten_guarantee" + qual + (":tactic5" if 5 in used else ""), "an interface-level guarantee of an operand is not enforced by the composition; point %s" % (m2,)))
     connected = bool((O1 & I2) | (O2 & I1))
     if not connected and not p["keep"]:
         env3 = Env()
